@@ -114,6 +114,7 @@ def gen_cases(tier: str, seed: int) -> List[Dict[str, Any]]:
         rng = rng_for(seed, PROPERTY, i)
         cls = CLASSES[i % len(CLASSES)]
         cases.append({"kind": "fwd", "cls": cls, "opts": gen_options(cls, rng), "training": rng.random() < 0.6,
+                      "dtype": rng.choice(["float64", "float64", "float64", "float32", "bfloat16"]),
                       "lead": rng.choice([0, 1, 1, 2]), "seed": derive_seed(seed, PROPERTY, "s", i) % (2**31)})
     n_init = 30 if tier == "quick" else 400
     for i in range(n_init):
@@ -324,6 +325,15 @@ def run_case(case: Dict[str, Any], ctx) -> None:
     m.train(case["training"])
     gen = torch.Generator().manual_seed(case["seed"])
     args = make_input(cls, opts, case["lead"], gen, torch, m)
+    run_dtype = {"float64": torch.float64, "float32": torch.float32, "bfloat16": torch.bfloat16}[case.get("dtype", "float64")]
+    if run_dtype != torch.float64 and not reject:
+        # module vs functional form must also be bit-identical in the other dtypes (conversion after construction: .to())
+        try:
+            m = m.to(run_dtype)
+            args = tuple(a.to(run_dtype) if a.is_floating_point() else a for a in args)
+        except Exception as e:
+            ctx.violation(f"{key}:to-dtype-raises:{exc_key(e)}", repr(e), opts=opts)
+            return
 
     def fresh_args():
         return tuple(a.detach().clone().requires_grad_(True) if a.is_floating_point() else a.clone() for a in args)
@@ -367,8 +377,26 @@ def run_case(case: Dict[str, Any], ctx) -> None:
                 which = _blame(cls, opts)
                 ctx.violation(f"{key}:module-gradient-differs-from-functional-form:{which}", f"gradient #{i} differs (option not honoured in the backward pass)", opts=opts)
                 break
+    # ---- no hidden state: toggling train/eval and calling again reproduces the first call bit for bit -------------
+    try:
+        m.train(not case["training"])
+        a3 = fresh_args()
+        torch.manual_seed(seed + 3)
+        m(*a3)
+        m.train(case["training"])
+        a4 = fresh_args()
+        torch.manual_seed(seed)
+        y4 = m(*a4)
+        ctx.count("history:mode-toggle-recompared")
+        if not bits_equal(y4.detach(), y1.detach()):
+            ctx.violation(f"{key}:result-depends-on-earlier-calls", "same module, same mode, same inputs and RNG state after a train/eval round trip: different output", opts=opts)
+    except Exception as e:
+        ctx.violation(f"{key}:forward-raises:{exc_key(e)}", repr(e), opts=opts, training=not case["training"])
+        return
     # ---- (ii) module vs torch.nn twin: scalar fits on two draws ------------------------------------
     twin, ref = make_twin(cls, opts, m, torch)
+    if run_dtype != torch.float64:
+        twin = None  # the twin comparison (1e-10 fits) is a float64 oracle
     if twin is not None:
         scal = []
         for draw in range(2):
@@ -418,7 +446,7 @@ def run_case(case: Dict[str, Any], ctx) -> None:
         if len(scal) == 2 and not rel_close(scal[0], scal[1], 1e-11):
             ctx.violation(f"{key}:twin-scalar-depends-on-data", f"{scal}", opts=opts)
     if not default_opts:
-        ctx.nontrivial(f"{cls}|{sorted((k, str(v)) for k, v in opts.items())}|{case['training']}|{case['lead']}")
+        ctx.nontrivial(f"{cls}|{sorted((k, str(v)) for k, v in opts.items())}|{case['training']}|{case['lead']}|{case.get('dtype')}")
     else:
         ctx.count("trivial:all-default-options")
 
